@@ -134,7 +134,7 @@ PROPS["C04"] = dict(
 PROPS["C06"] = dict(
     pkg="c06", race=True, level="exploration",
     technique="rapid state-machine histories plus bounded-exhaustive short histories from a full buffer, with a harness-owned worker schedule, against an executable queue model per overflow policy",
-    level_text="Exploration over histories: with the worker parked in a gated appender, every generated history (and every history of length <= 4 quick / <= 6 thorough from a full buffer) must deliver exactly the sequence the policy's queue model predicts (Discard drops the arriving item, DiscardOldest the head, Block waits); a discard-policy call must return while the gate stays shut for good, a Block call must not return before the worker takes an item and must return after; randomised multi-producer runs check per-producer order. Histories also contain below-level events and empty raw writes; in the concurrent DiscardOldest run what survives of one producer must be a gap-free run ending with its last item. Large raw writes; a log call issued while another goroutine is inside Stop (appender stalled, buffer with room) returns under the two discard policies. PANIC-level events arriving at a full buffer under Discard. Explicit Block on the asynchronous rolling-file logger. Buffer sizes up to 1000 in the single-stepped histories.",
+    level_text="Exploration over histories: with the worker parked in a gated appender, every generated history (and every history of length <= 4 quick / <= 6 thorough from a full buffer) must deliver exactly the sequence the policy's queue model predicts (Discard drops the arriving item, DiscardOldest the head, Block waits); a discard-policy call must return while the gate stays shut for good, a Block call must not return before the worker takes an item and must return after; randomised multi-producer runs check per-producer order. Histories also contain below-level events and empty raw writes; in the concurrent DiscardOldest run what survives of one producer must be a gap-free run ending with its last item. Large raw writes; a log call issued while another goroutine is inside Stop (appender stalled, buffer with room) returns under the two discard policies. PANIC-level events arriving at a full buffer under Discard. Explicit Block on the asynchronous rolling-file logger. Buffer sizes up to 1000 in the single-stepped histories. Block with the appender stalled for 4 s (quick) / 15 s (thorough) while 1-3 producers submit more than the buffer holds: nobody finishes early, nothing is dropped or reordered.",
     level_note="Trusted: the harness queue model; 'does not block' is judged only while the gate is never released (definitive), 'blocks' by a 30 ms grace a correct implementation cannot fail. Domain B samples schedules.",
     rule="generated and enumerated histories",
     steps=[
@@ -144,6 +144,7 @@ PROPS["C06"] = dict(
         dict(test="^TestC06_ConcurrentDiscard$", quick=dict(checks=30, timeout=900), thorough=dict(checks=300, shards=4, timeout=3000)),
         dict(test="^TestC06_RollingAsyncPolicy$", quick=dict(checks=30, timeout=900), thorough=dict(checks=300, shards=2, timeout=3000)),
         dict(test="^TestC06_CallDuringStop$", quick=dict(checks=40, timeout=900), thorough=dict(checks=600, shards=2, timeout=3000)),
+        dict(test="^TestC06_BlockLongStall$", quick=dict(checks=2, timeout=900), thorough=dict(checks=6, shards=4, timeout=3000)),
     ],
 )
 
